@@ -183,6 +183,7 @@ def run_case(args):
             # --- the ending
             n = cl("n")
             welcomed = False
+            joined = False
             if ending.startswith("kill"):
                 o.send("KILL vic :stuck one")
                 ol = o.ping("k")
@@ -192,6 +193,8 @@ def run_case(args):
                 try:
                     got = n.read_until(lambda m: m.verb in ("001", "433"), 6.0)
                     welcomed = got[-1].verb == "001"
+                    if welcomed:
+                        joined = _join(n, "#st")  # the new owner joins while the old session's socket is still open
                 except wire.Timeout:
                     pass  # the registration waits for something the stuck session holds: allowed, resolved below
                 except wire.Closed:
@@ -223,6 +226,8 @@ def run_case(args):
                 n.read_until(lambda m: m.verb == "221", 5.0)
             except (wire.Timeout, wire.Closed):
                 pass
+            if not joined:
+                joined = _join(n, "#st")
             # let the old session's task finish whatever it still does
             if hooks:
                 deadline = time.monotonic() + 6.0
@@ -260,9 +265,27 @@ def run_case(args):
             # --- nothing else changed
             names = _names(a, "#st")
             want = {"~anna", "+bert"}
-            if names != want:
+            if joined and "vic" not in names and "vic" in ison:
+                bad("claimant-membership-erased", "the nickname's new owner joined #st (its JOIN was confirmed) and never left, "
+                    "but NAMES #st is %s" % sorted(names))
+            if "@vic" in names or "+vic" in names or "~vic" in names:
+                bad("claimant-inherited-rank", "the nickname's new owner joined #st as a plain member, NAMES shows %s"
+                    % sorted(x for x in names if x.endswith("vic")))
+            in_names = "vic" in names
+            names.discard("vic")
+            if names - {"@vic", "+vic", "~vic"} != want:
                 bad("bystanders-changed", "NAMES #st is %s, expected %s (the ended user gone, everybody else as before)"
                     % (sorted(names), sorted(want)))
+            if joined and "vic" in ison:
+                a.send("WHO #st")
+                wl2 = a.read_until(lambda m: m.verb == "315", 8.0)
+                whoed = {m.params[5] for m in wl2 if m.verb == "352" and len(m.params) > 5}
+                chans = " ".join(m.params[-1] for m in wl if m.verb == "319").split()
+                views = (in_names, "vic" in whoed, "#st" in [c.lstrip("~&@%+") for c in chans])
+                out["events"] += len(wl2)
+                if len(set(views)) != 1:
+                    bad("claimant-views-disagree", "the new owner of the nickname on #st: NAMES %s, WHO %s, WHOIS(before) %s"
+                        % views)
             a.send("LIST #solo")
             ll = a.read_until(lambda m: m.verb == "323", 8.0)
             if any(m.verb == "322" for m in ll):
@@ -288,6 +311,15 @@ def run_case(args):
             except OSError:
                 pass
     return out
+
+
+def _join(c, chan):
+    c.send("JOIN " + chan)
+    try:
+        got = c.read_until(lambda m: m.verb in ("366", "403", "405", "471", "473", "474", "475", "451"), 5.0)
+        return got[-1].verb == "366"
+    except (wire.Timeout, wire.Closed):
+        return False
 
 
 def _quiet_send(c, data):
